@@ -1201,7 +1201,7 @@ func (w *World) Observe() (v *Violation) {
 			w.Labels["inner_on_disk"] = true
 		}
 		if w.Obs.Audit && len(w.Vers) > 0 && w.fastIndexCurrent() {
-			if err := auditFast(raw, w.Vers[w.Latest], w.Latest); err != nil {
+			if err := auditFast(raw, w.Vers, w.Latest); err != nil {
 				return w.viol("audit.fast", "%v", err)
 			}
 		}
@@ -1215,7 +1215,7 @@ func (w *World) Observe() (v *Violation) {
 		}
 	}
 	if w.Obs.Fast && !w.Obs.Audit && len(w.Vers) > 0 && w.fastIndexCurrent() {
-		if err := auditFast(w.rawDump(), w.Vers[w.Latest], w.Latest); err != nil {
+		if err := auditFast(w.rawDump(), w.Vers, w.Latest); err != nil {
 			return w.viol("audit.fast", "%v", err)
 		}
 	}
